@@ -2409,7 +2409,14 @@ func isGeneric(t *itype) bool {
 }
 
 func isNamedFuncSrc(t *itype) bool {
-	return isFuncSrc(t) && t.node.anc.kind == funcDecl
+	if !isFuncSrc(t) || t.node == nil {
+		return false
+	}
+	if t.node.kind == identExpr && t.node.sym != nil {
+		// The type attached to an identifier which denotes a declared function.
+		return t.node.sym.kind == funcSym
+	}
+	return t.node.anc != nil && t.node.anc.kind == funcDecl
 }
 
 func isFuncSrc(t *itype) bool {
